@@ -60,7 +60,7 @@ func run(r *lib.Run) {
 
 	w := &world{r: r, parked: map[string]int64{}, deadlineScale: 1}
 	if raceEnabled {
-		w.deadlineScale = 4
+		w.deadlineScale = 8
 	}
 	workers := runtime.GOMAXPROCS(0) / 2
 	if workers < 2 {
@@ -118,12 +118,20 @@ func (w *world) startServers() bool {
 
 func (w *world) stopServers() {
 	for mode, s := range w.srv {
-		// every client call has returned: a handler still in flight that was not
-		// attributed to a call without answer cannot be explained by the workload
-		if st := s.Settle(20 * time.Second * w.deadlineScale); st != "ok" {
-			if extra := s.Inflight() - w.parked[mode]; extra != 0 {
-				w.r.Inconclusive(fmt.Sprintf("server (%s) did not settle at the end of a batch: %s, %d unexplained in-flight handlers", mode, st, extra))
+		// Every client call has returned.  Handlers attributed to calls without
+		// answer stay parked; any other handler still in flight after a generous
+		// wait cannot be explained by the workload.
+		deadline := time.Now().Add(20 * time.Second * w.deadlineScale)
+		for {
+			extra := s.Inflight() - w.parked[mode]
+			if extra == 0 {
+				break
 			}
+			if time.Now().After(deadline) {
+				w.r.Inconclusive(fmt.Sprintf("server (%s) did not settle at the end of a batch: %d unexplained in-flight handlers", mode, extra))
+				break
+			}
+			time.Sleep(2 * time.Millisecond)
 		}
 		s.Close()
 	}
@@ -142,8 +150,7 @@ type callResult struct {
 }
 
 // doWrite drives one ByteStream.Write call with an explicit message sequence.
-func doWrite(ctx context.Context, srv *lib.Server, msgs []msg, noClose bool) callResult {
-	var cr callResult
+func doWrite(ctx context.Context, srv *lib.Server, msgs []msg, noClose bool) (cr callResult) {
 	t0 := time.Now()
 	defer func() { cr.elapsedMs = time.Since(t0).Milliseconds() }()
 	st, err := srv.BS.Write(ctx)
@@ -176,7 +183,9 @@ func doWrite(ctx context.Context, srv *lib.Server, msgs []msg, noClose bool) cal
 	} else {
 		cr.resp, cr.err = st.CloseAndRecv()
 	}
-	if cr.err != nil && ctx.Err() != nil && (lib.Code(cr.err) == codes.DeadlineExceeded || lib.Code(cr.err) == codes.Canceled) {
+	// The only deadline in play is the harness watchdog (the transport's timer
+	// may report it a moment before ctx.Err() does, so the code decides).
+	if c := lib.Code(cr.err); cr.err != nil && (c == codes.DeadlineExceeded || c == codes.Canceled) {
 		cr.noAnswer = true
 	}
 	return cr
@@ -193,7 +202,7 @@ type probe struct {
 
 func (w *world) probeState(srv *lib.Server, hash string, size int64, qwsName string) probe {
 	var p probe
-	ctx, cancel := lib.Ctx()
+	ctx, cancel := w.probeCtx()
 	defer cancel()
 	miss, err := srv.FindMissing(ctx, &pb.Digest{Hash: hash, SizeBytes: size})
 	if err != nil {
@@ -284,8 +293,13 @@ func classify(s *spec, b *built) (string, string) {
 	return mustSucceedNew, "wellformed"
 }
 
+// probeCtx is the watchdog for the state probes (expiry = inconclusive).
+func (w *world) probeCtx() (context.Context, context.CancelFunc) {
+	return context.WithTimeout(context.Background(), 120*time.Second*w.deadlineScale)
+}
+
 func (w *world) deadlineFor(payload int64) time.Duration {
-	d := 15*time.Second + time.Duration(payload>>20)*5*time.Second
+	d := 20*time.Second + time.Duration(payload>>20)*5*time.Second
 	return d * w.deadlineScale
 }
 
@@ -357,7 +371,7 @@ func (w *world) runCase(s *spec) {
 	}
 
 	// ---- pre-state
-	ctx, cancel := lib.Ctx()
+	ctx, cancel := w.probeCtx()
 	defer cancel()
 	switch s.Present {
 	case "http":
@@ -394,6 +408,11 @@ func (w *world) runCase(s *spec) {
 		return
 	}
 	w.judgeQWS(s, "before", before, size, detail)
+
+	if s.Class == "concurrent" {
+		w.runConcurrent(s, b, srv, detail, logf)
+		return
+	}
 
 	// ---- the call
 	cctx, ccancel := context.WithTimeout(context.Background(), w.deadlineFor(b.sentAll))
@@ -577,6 +596,109 @@ func (w *world) runCase(s *spec) {
 	w.judgeQWS(s, "after", after, size, detail)
 }
 
+// runConcurrent: the same absent blob uploaded by three well-formed calls at
+// once (different uuid, chunking, kind).  Whether a call finds the blob already
+// there is not determined, so each call must succeed with either the number
+// of bytes it sent or the early-return value; afterwards the blob is present.
+func (w *world) runConcurrent(s *spec, b *built, srv *lib.Server, detail func(map[string]any) map[string]any, logf func(string, ...any)) {
+	r := w.r
+	size := int64(len(b.blob))
+	type one struct {
+		sp spec
+		b  *built
+		cr callResult
+	}
+	calls := make([]*one, 3)
+	for i := range calls {
+		sp := *s
+		if i > 0 {
+			sp.Chunking = chunkings[(s.ID+3*i)%len(chunkings)]
+			if sp.Chunking == "1B" && sp.Size > 4097 {
+				sp.Chunking = "1K"
+			}
+			if i == 2 {
+				if sp.Kind == "zstd" {
+					sp.Kind, sp.Encoder = "identity", ""
+				} else {
+					sp.Kind, sp.Encoder = "zstd", "kp1"
+				}
+			}
+			sp.UUIDCase = []string{"lower", "upper"}[i%2]
+			sp.Finish = finishes[i%2]
+		}
+		bb := build(&sp) // same seed, id, size, content kind: same blob
+		if bb.hash != b.hash {
+			r.Inconclusive(fmt.Sprintf("case %d: concurrent variants produced different content", s.ID))
+			return
+		}
+		calls[i] = &one{sp: sp, b: bb}
+	}
+	var wg sync.WaitGroup
+	for _, c := range calls {
+		wg.Add(1)
+		go func() {
+			defer wg.Done()
+			ctx, cancel := context.WithTimeout(context.Background(), w.deadlineFor(c.b.sentAll)*2)
+			defer cancel()
+			c.cr = doWrite(ctx, srv, c.b.msgs, false)
+		}()
+	}
+	wg.Wait()
+	for i, c := range calls {
+		cs := int64(-999)
+		if c.cr.resp != nil {
+			cs = c.cr.resp.CommittedSize
+		}
+		logf("concurrent Write #%d (%s, chunking %s, %d messages, %d bytes) -> %s committed=%d", i, c.sp.Kind, c.sp.Chunking, len(c.b.msgs), c.b.sentAll, errStr(c.cr.err), cs)
+	}
+	for _, c := range calls {
+		if c.cr.noAnswer || lib.Code(c.cr.err) == codes.Unavailable {
+			r.Inconclusive(fmt.Sprintf("case %d: a concurrent upload got no answer before the watchdog: %s", s.ID, errStr(c.cr.err)))
+			return
+		}
+	}
+	ctx, cancel := w.probeCtx()
+	defer cancel()
+	after := w.probeState(srv, b.hash, size, b.goodName)
+	got, rerr := readBack(ctx, srv, readName(s.Inst, "identity", b.hash, size), len(b.blob))
+	logf("post: FindMissing present=%v; QueryWriteStatus -> %s complete=%v committed=%d; read -> %s equal=%v", after.fmPresent, errStr(after.qwsErr), after.qwsComplete, after.qwsSize, errStr(rerr), bytes.Equal(got, b.blob))
+	r.Eval()
+	r.Distinct(s.Mode, "concurrent", s.InstClass, s.MetaClass, s.Chunking, lib.SizeClassName(s.Size))
+	r.Count("size." + lib.SizeClassName(s.Size))
+	for _, c := range calls {
+		early := size
+		if c.sp.Kind == "zstd" {
+			early = -1
+		}
+		key := func(sym string) string { return fmt.Sprintf("C16:write:%s:concurrent-same-blob:%s", c.sp.Kind, sym) }
+		switch {
+		case c.cr.err != nil:
+			r.Count("write.concurrent." + c.sp.Kind + ".failed." + lib.Code(c.cr.err).String())
+			r.Violation(key("failed"), "one of three concurrent well-formed uploads of the same absent blob failed: "+errStr(c.cr.err), detail(nil))
+		case c.cr.resp == nil || (c.cr.resp.CommittedSize != c.b.sentToFinish && c.cr.resp.CommittedSize != early):
+			r.Violation(key("committed-size"), fmt.Sprintf("concurrent upload reported committed_size %v, neither the %d bytes sent nor the early-return value %d", c.cr.resp, c.b.sentToFinish, early), detail(nil))
+		default:
+			if c.cr.resp.CommittedSize == c.b.sentToFinish {
+				r.Count("write.concurrent." + c.sp.Kind + ".ok.full")
+			} else {
+				r.Count("write.concurrent." + c.sp.Kind + ".ok.early")
+			}
+		}
+	}
+	anyOK := false
+	for _, c := range calls {
+		anyOK = anyOK || c.cr.err == nil
+	}
+	if anyOK {
+		if !after.fmPresent {
+			r.Violation("C16:write:"+s.Kind+":concurrent-same-blob:absent-after-success", "blob missing after successful concurrent uploads", detail(nil))
+		} else if rerr != nil || !bytes.Equal(got, b.blob) {
+			r.Violation("C16:write:"+s.Kind+":concurrent-same-blob:readback-differs", "blob unreadable or different after successful concurrent uploads: "+errStr(rerr), detail(nil))
+		}
+	}
+	w.judgeQWS(s, "after", after, size, detail)
+}
+
 // buildFresh materialises the case with content no other case of this batch
 // uses on the same server (blobs of 1 or 2 bytes collide; outcomes of
 // different cases must not alias).
@@ -678,11 +800,11 @@ func (w *world) noAnswer(s *spec, srv *lib.Server, keyPrefix string, detail func
 	r := w.r
 	r.Count("write.no-answer-before-deadline")
 	// non-exclusive settle first (the client context is already cancelled)
-	time.Sleep(2 * time.Second * w.deadlineScale)
+	time.Sleep(3 * time.Second * w.deadlineScale)
 	w.quiesce.Lock()
 	defer w.quiesce.Unlock()
 	// exclusive: every other client call has returned; their handlers end within moments
-	deadline := time.Now().Add(3 * time.Second * w.deadlineScale)
+	deadline := time.Now().Add(2 * time.Second * w.deadlineScale)
 	wait := time.Millisecond
 	for srv.Inflight()-w.parked[s.Mode] > 0 && time.Now().Before(deadline) {
 		time.Sleep(wait)
